@@ -53,6 +53,7 @@ type Contract struct {
 	Trusted  bool
 	Pure     bool
 	MayPanic bool
+	NoPanicIf *Clause // nopanic_if E: although the function may panic in general, it must not when E holds at entry
 	Ghost    bool // ghost-neutral marker
 	File     string
 	Line     int
@@ -60,8 +61,17 @@ type Contract struct {
 	NoAuto   bool
 	AfterCall map[string]*Interference // callee short name -> interference applied after each call (rely)
 	AtCall   map[string][]Clause // callee short name -> obligations evaluated in the caller's scope at each call
+	Capture  map[string][]CaptureSpec // callee short name -> names bound to results of the latest call of that callee
+	captured map[string]bool
 	ModNone  bool
 	autoApplied bool
+}
+
+// CaptureSpec: `capture NAME = Callee k` binds NAME (usable like a local in later clauses) to result k of the
+// most recent call of Callee in the function under contract.
+type CaptureSpec struct {
+	Name string
+	K    int
 }
 
 func (c *Contract) HasProfile(p string) bool {
@@ -314,6 +324,19 @@ func applyDirective(c *Contract, t string, line int) error {
 			c.AtCall = map[string][]Clause{}
 		}
 		c.AtCall[f[1]] = append(c.AtCall[f[1]], cl)
+	case "capture":
+		// capture NAME = Callee k
+		if len(f) != 5 || f[2] != "=" {
+			return fmt.Errorf("capture NAME = Callee k")
+		}
+		k, err := strconv.Atoi(f[4])
+		if err != nil {
+			return fmt.Errorf("capture NAME = Callee k: %v", err)
+		}
+		if c.Capture == nil {
+			c.Capture = map[string][]CaptureSpec{}
+		}
+		c.Capture[f[3]] = append(c.Capture[f[3]], CaptureSpec{f[1], k})
 	case "after_call":
 		// after_call <Callee> havoc loc, loc assume E
 		hi := strings.Index(t, " havoc ")
@@ -449,6 +472,12 @@ func applyDirective(c *Contract, t string, line int) error {
 		c.MayPanic = true
 	case "nopanic":
 		c.MayPanic = false
+	case "nopanic_if":
+		cl, err := mk(rest)
+		if err != nil {
+			return err
+		}
+		c.NoPanicIf = &cl
 	case "noauto":
 		c.NoAuto = true
 	case "ghostneutral":
